@@ -1432,6 +1432,10 @@ where
                         //              RowDescription
                         //              ReadyForQuery
 
+                        // Statements evicted from the server's cache by earlier batches can go now,
+                        // the ones this batch evicts have to stay until it has been sent.
+                        server.close_evicted_prepared_statements().await?;
+
                         // Iterate over our extended protocol data that we've buffered
                         while let Some(protocol_data) =
                             self.extended_protocol_data_buffer.pop_front()
